@@ -89,8 +89,67 @@ class C07(Property):
 
     race_bin = None
 
+    # The two hook files only assign to the unexported SingleFlight field of ResourceManager / collection.Cache.  The NAME
+    # of that field is read from today's source (a renamed field or a struct moved to another file of the package must not
+    # make the executor fail to build); when no such field is found the hook does nothing: the "pre" schedule point is
+    # then missing, the model disagrees and the runner searches for a failing input.
+    HOOKS = (("core/syncx", "ResourceManager", r"SingleFlight", "verif_hooks.go",
+              "package syncx\n\n// generated by tools/props/c07.py from harness/overlay/syncx/verif_hooks.go\n"
+              "func (manager *ResourceManager) VerifWrapFlight(wrap func(SingleFlight) SingleFlight) {\n%s}\n",
+              "\tmanager.%s = wrap(manager.%s)\n"),
+             ("core/collection", "Cache", r"syncx\.SingleFlight", "zz_verif_c07.go",
+              "package collection\n\nimport \"github.com/zeromicro/go-zero/core/syncx\"\n\n"
+              "// generated by tools/props/c07.py from harness/overlay/collection/zz_verif_c07.go\n"
+              "func (c *Cache) VerifC07WrapBarrier(wrap func(syncx.SingleFlight) syncx.SingleFlight) {\n%s}\n",
+              "\tc.%s = wrap(c.%s)\n"))
+
+    @staticmethod
+    def _struct_field(pkgdir, struct, type_re):
+        """name of the field of `struct` (declared in any non-test file of the package) whose type matches type_re"""
+        import glob
+        import os
+        import re
+        for f in sorted(glob.glob(os.path.join(pkgdir, "*.go"))):
+            if f.endswith("_test.go"):
+                continue
+            try:
+                src = open(f, encoding="utf-8", errors="replace").read()
+            except OSError:
+                continue
+            src = re.sub(r"//[^\n]*", "", src)
+            m = re.search(r"\b%s\s+struct\s*\{" % re.escape(struct), src)
+            if not m:
+                continue
+            depth, i = 1, m.end()
+            while i < len(src) and depth:
+                depth += {"{": 1, "}": -1}.get(src[i], 0)
+                i += 1
+            for line in src[m.end():i - 1].split("\n"):
+                fm = re.match(r"\s*([A-Za-z_]\w*)\s+%s\s*(`[^`]*`)?\s*$" % type_re, line)
+                if fm:
+                    return fm.group(1)
+        return None
+
+    def _overlay(self):
+        import hashlib
+        import os
+        d = os.path.join(vlib.ROOT, ".run", "c07-hooks-" + hashlib.sha1(vlib.REPO.encode()).hexdigest()[:10])
+        os.makedirs(d, exist_ok=True)
+        ov = {}
+        for pkg, struct, type_re, fname, tmpl, body in self.HOOKS:
+            field = self._struct_field(os.path.join(vlib.REPO, pkg), struct, type_re)
+            text = tmpl % ((body % (field, field)) if field else "")
+            path = os.path.join(d, fname)
+            tmp = "%s.%d" % (path, os.getpid())
+            with open(tmp, "w") as f:
+                f.write(text)
+            os.replace(tmp, path)
+            ov["%s/%s" % (pkg, fname)] = path
+        return ov
+
     def prepare(self, ctx):
-        ok, res = vlib.go_build("c07", overlay=OVERLAY)
+        self.overlay = self._overlay()
+        ok, res = vlib.go_build("c07", overlay=self.overlay)
         self.bin = res if ok else None
         return ok, ("" if ok else res)
 
@@ -626,7 +685,7 @@ class C07(Property):
         if ctx.tier != "thorough":
             return []
         import random
-        ok, res = vlib.go_build("c07", overlay=OVERLAY, race=True)
+        ok, res = vlib.go_build("c07", overlay=getattr(self, "overlay", None) or self._overlay(), race=True)
         if not ok:
             raise ExecError("c07 -race build failed: %s" % res[-1500:])
         rng = random.Random(ctx.seed * 31 + 7)
